@@ -20,6 +20,11 @@ def run(ctx):
     S.deliver_guard(ctx, L)
     ctx.rule("R-BAM-FRESH", "a new broadcast announcement never inherits the data of an unfinished one (no mixed message)", floor=1)
     S.bam_fresh(ctx, L)
+    ctx.rule("R-RTS-ACCEPT", "an RTS is refused only when its own receive key is occupied (crossing transfers are both served)", floor=1)
+    S.rts_accept(ctx, L)
+    from rules import ecu as _E
+    ctx.rule("R-WAKE-NONBLOCK", "posting a wake-up token never blocks (any number of CTS windows)", floor=1)
+    _E.wake_nonblocking(ctx)
     ctx.rule("R-REFRESH", "each appended, non-completing data packet re-arms the receive deadline", floor=2)
     S.refresh(ctx, L)
     ctx.rule("R-ORDER-SEND", "state advanced before RTS / connection-mode DT is handed to the bus", floor=2)
